@@ -185,5 +185,31 @@ pub fn run(tier: Tier) -> i32 {
         shrink_and_report(raw, &c.table, &mut rep, &c.name);
     }
     run_large_families(&mut rep, &pipes);
+    // the other direction: every token string the reference reads as well-formed (also renderings
+    // the tree enumerator never produces) must evaluate to the reference tree
+    let table = universal_table(PRIO_MAPS[0]);
+    for (name, toks, l) in [("strings-std", crate::strsweep::std_tokens(), if tier.thorough() { 6 } else { 5 }), ("strings-small", crate::strsweep::small_tokens(), if tier.thorough() { 7 } else { 6 })] {
+        let sw = crate::strsweep::Sweep { name, tokens: toks, max_len: l, table: table.clone(), sep: " " };
+        let tb = table.clone();
+        crate::strsweep::sweep_strings(&sw, &mut rep, &|text, _i, acc| {
+            if let SpecResult::Ok(tree) = spec::read(text, &tb, spec::LitKind::Sym) {
+                acc.states += 1;
+                if tree.has_op() {
+                    acc.nontrivial += 1;
+                }
+                acc.count("token_strings_the_reference_reads_as_well_formed", 1);
+                for p in [Pipe::P, Pipe::W] {
+                    acc.transitions += 1;
+                    if let Some((e, o)) = judge(p, &tree, text, &tb) {
+                        acc.violate(Violation {
+                            signature: format!("{p:?}:string:{}", canon_tree(&tree, &tb)),
+                            what: format!("pipeline {p:?} on the token string {text:?}: expected {e} observed {o}"),
+                            case: json!({"engine": "tree-text", "table": tb.describe(), "text": text, "pipe": format!("{p:?}")}),
+                        });
+                    }
+                }
+            }
+        });
+    }
     rep.finish()
 }
